@@ -109,6 +109,24 @@ func unsignedWidth(t types.Type) int {
 	return 0
 }
 
+func signedWidth(t types.Type) int {
+	b, ok := t.Underlying().(*types.Basic)
+	if !ok {
+		return 0
+	}
+	switch b.Kind() {
+	case types.Int8:
+		return 8
+	case types.Int16:
+		return 16
+	case types.Int32:
+		return 32
+	case types.Int64, types.Int:
+		return 64
+	}
+	return 0
+}
+
 // bitsOfInt: the bit vector of an integer value of an unsigned type, if known.
 func bitsOfInt(v IntV) *bitVec {
 	if v.Bits != nil {
@@ -337,6 +355,23 @@ func (b *bitVec) leadingZeros(w int) (int, bool) {
 	return w, true
 }
 
+// litsOf: the vector is exactly bits [0,n) of one unknown and zero above.
+func (b *bitVec) litsOf() (sym, n int, ok bool) {
+	if b.B[0].K != bLit {
+		return 0, 0, false
+	}
+	sym = int(b.B[0].Sym)
+	for n < 64 && b.B[n].K == bLit && int(b.B[n].Sym) == sym && int(b.B[n].Idx) == n {
+		n++
+	}
+	for i := n; i < 64; i++ {
+		if b.B[i].K != bZero {
+			return 0, 0, false
+		}
+	}
+	return sym, n, true
+}
+
 // attachBits returns r with the bit vector nb (a constant vector becomes a known value).
 func attachBits(r AV, nb *bitVec) AV {
 	if nb == nil {
@@ -347,6 +382,10 @@ func attachBits(r AV, nb *bitVec) AV {
 	}
 	if ri, ok := r.(IntV); ok && !ri.Known {
 		ri.Bits = nb
+		if sym, _, ok := nb.litsOf(); ok && ri.Sym != sym {
+			// all bits of one unknown: the value is that unknown again
+			ri.Sym, ri.A, ri.B = sym, 1, 0
+		}
 		return ri
 	}
 	return r
